@@ -228,10 +228,10 @@ def unop {F} (ops : FOps F) (op : UnOp) (a : Cell F) : Res (Cell F) :=
   | .ge, .flt _ x => .ok (.int .i (if ops.lt (ops.ofInt 0) x || ops.eq x (ops.ofInt 0) then -1 else 0))
   | .cint, .int _ x => mk ops .i (.int x)
   | .clng, .int _ x => mk ops .l (.int x)
-  | .cint, .flt _ x => (match ops.roundEven x with | some n => mk ops .i (.int n) | none => .host "NonFinite")
-  | .clng, .flt _ x => (match ops.roundEven x with | some n => mk ops .l (.int n) | none => .host "NonFinite")
+  | .cint, .flt _ x => (match ops.roundEven x with | some n => mk ops .i (.int n) | none => .trap "INVALID_CELL_VALUE")
+  | .clng, .flt _ x => (match ops.roundEven x with | some n => mk ops .l (.int n) | none => .trap "INVALID_CELL_VALUE")
   | .int, .int _ x => mk ops .l (.int x)
-  | .int, .flt _ x => (match ops.floor x with | some n => mk ops .l (.int n) | none => .host "NonFinite")
+  | .int, .flt _ x => (match ops.floor x with | some n => mk ops .l (.int n) | none => .trap "INVALID_CELL_VALUE")
   -- lt/gt/le/ge report the mismatch with `got=a.type`, an undefined name; sign likewise
   | .lt, .str _ => .host "NameError"
   | .gt, .str _ => .host "NameError"
@@ -249,7 +249,7 @@ def conv {F} (ops : FOps F) (src dst : Ty) (a : Cell F) : Res (Cell F) :=
     if isIntTy dst then
       match ops.roundEven x with
       | some n => mk ops dst (.int n)
-      | none => .host "NonFinite"
+      | none => .trap "INVALID_CELL_VALUE"
     else mk ops dst (.flt x)
   | .str _ => .trap "TYPE_MISMATCH"
 
